@@ -10,7 +10,8 @@
 (* the real multisig account.                                               *)
 (*                                                                         *)
 (* A behaviour is: cfg(p1), cfg(p2), init (constructor), a history of      *)
-(* management calls, and one final check.                                   *)
+(* management calls, and one final check (replayed either by entering      *)
+(* __check_auth directly or, for chains of call contexts, end-to-end).     *)
 (***************************************************************************)
 EXTENDS SmartAccount, Json
 
@@ -251,8 +252,15 @@ OpCode(h) == h.id * 7 + h.vu * 3 + h.dt * 5 + NameCode(h.ct) * 11 + SetCode(ToSe
 RECURSIVE HistCode(_, _)
 HistCode(h, i) == IF i > Len(h) THEN 0 ELSE i * OpCode(h[i]) + HistCode(h, i + 1)
 
+\* every other printed behaviour whose final batch is a chain of different call targets is replayed end-to-end
+\* (op "e2e": the host derives payload and contexts from a genuine authorization entry); same expected result
+E2eEligible(o) == /\ \A i \in DOMAIN o.ctxs : o.ctxs[i] \in {"c1", "c2", "c3"}
+                  /\ Len(o.ctxs) = 1 \/ (Len(o.ctxs) = 2 /\ o.ctxs[1] # o.ctxs[2])
+Twin(h) == IF E2eEligible(h[Len(h)]) /\ (HistCode(h, 1) \div EmitMod) % 2 = 0
+           THEN [h EXCEPT ![Len(h)].op = "e2e"] ELSE h
+
 EmitReplay == (Emit /\ hist'[Len(hist')].op = "check" /\ HistCode(hist', 1) % EmitMod = 0)
-              => PrintT(<<"REPLAY", ToJson(hist')>>)
+              => PrintT(<<"REPLAY", ToJson(Twin(hist'))>>)
 
 (* what TLC checks ----------------------------------------------------------*)
 NoViolation == viol = {}
